@@ -20,6 +20,11 @@ def kw(a=0, b=0):
     return a * 10 + b
 
 
+def tag(v=None, w=0):
+    """Tolerates any object as ``v`` (a callee that must not be run with a stand-in for an unknown value)."""
+    return (1 if v is None else 2 if isinstance(v, int) else 3) + 10 * (w if isinstance(w, int) else 7)
+
+
 def first(xs, default=0):
     return xs[0] if xs else default
 
